@@ -32,7 +32,7 @@ CLAIMED.update({
         note='Trusted: spec/sem.py (RV32 step semantics, RVC expansion/legality), z3, stubs. Bound: single-instruction programs and the layout templates; operand widths in evidence.',
         ref='6 C04'),
     'C05': dict(
-        text='Each of the 27 pseudo-instructions is assembled by the real pipeline with symbolic registers, li value and target distance (forward/backward, symbolic gap), both modes; the emitted words are executed by the reference step semantics from an arbitrary register file and even load address and must produce exactly the documented register file and pc (Skolem register index).',
+        text='Each of the 27 pseudo-instructions is assembled by the real pipeline with symbolic registers, li value (literal and label) and target (label forward/backward over a symbolic gap, in a context of other shrinking pseudo-instructions, or a constant address), both modes; the emitted words are executed by the reference step semantics from an arbitrary register file and even load address and must produce exactly the documented register file and pc (Skolem register index).',
         note='Trusted: spec/sem.py, documented effects (DESIGN.md appendix B), z3, stubs. Bound: li value width, gap size in evidence.',
         ref='6 C05'),
     'C12': dict(
@@ -47,7 +47,7 @@ CLAIMED.update({
 
 CLAIMED.update({
     'C03': dict(
-        text='Layout templates (branches, j, jal, call, tail, shrinking li, data, aligns, symbolic gaps up to 8 MiB) run through the whole real assemble() in both modes; on every accepting path each transfer is decoded by the reference semantics and must land on the label offset recomputed from the emitted chunks, and the reported label table must equal those offsets.',
+        text='Layout templates (curated cases, the adjacency and between families, symbolic alignments, and seeded random programs; branches, j, jal, call, tail, shrinking li, data, aligns, symbolic gaps up to 8 MiB) run through the whole real assemble() in both modes; on every accepting path each transfer is decoded by the reference semantics and must land on the label offset recomputed from the emitted chunks, and the reported label table must equal those offsets; two-call histories that re-use one labels dictionary must give the second program its own offsets.',
         note='Trusted: spec/sem.py decoding, the chunk list seen at resolve_blobs (wrapped from outside), z3, stubs. Bound: the template set (<= 12 lines each), gap sizes, li widths in evidence.',
         ref='6 C03'),
     'C08': dict(
@@ -86,22 +86,22 @@ CLAIMED.update({
         note='Trusted: z3, stubs. A program that is not refused carries no obligation. Bound: the fault list and placements in evidence.',
         ref='6 C15'),
     'C16': dict(
-        text='Frame condition (one inductive step): after every path of assemble() on symbolic programs (failing paths included) a structural fingerprint of everything reachable from the module is unchanged and contains no symbolic value. Two-call products: the second call\'s result equals the result of the second program alone for all values of both programs\' symbols, also when the first call fails or received the caller\'s dictionaries.',
+        text='Frame condition (one inductive step): after every path of assemble() on symbolic programs (failing paths included) a structural fingerprint of everything reachable from the module is unchanged and contains no symbolic value. A changed module state counts as a violation only if a probe program then assembles differently than on a fresh import. Two-call products: the second call\'s result equals the result of the second program alone for all values of both programs\' symbols - with fresh dictionaries, with dictionaries passed to the first call only, with no dictionaries at all, with the same dictionary objects for both calls, and with one shared include_dirs list.',
         note='Trusted: the fingerprint walks dicts, lists, partials, class dicts, function defaults and closures; z3; stubs. PYTHONHASHSEED independence is NOT claimed.',
         ref='6 C16'),
 })
 
 CLAIMED.update({
     'C17': dict(
-        text='The real cli_main() runs in-process over a virtual file system that already holds old output, label and hex files, for combinations of programs (a symbolic operand decides which pass refuses them), -c (symbolic) and the option sets -o/-l/--hex-offset valid and invalid/-i/--include-definitions/-v: on every failing path nothing was opened for writing; on success the -o file holds exactly the assembled byte object, the -l file one "name 0x%08x" line per label carrying that label\'s value, and bin2hex is called with (output, output.hex, offset) after the binary was written.',
+        text='The real cli_main() runs in-process over a virtual file system that already holds old output, label and hex files, for combinations of programs (a symbolic operand decides which pass refuses them), -c (symbolic) and the option sets -o/-l/--hex-offset (symbolic value, and invalid spellings)/-i (one, two in non-alphabetical order, repeated)/--include-definitions/-v: on every failing path nothing was opened for writing; on success the -o file holds exactly the assembled byte object, the -l file one "name 0x%08x" line per label carrying that label\'s value, and bin2hex is called with (output, output.hex, offset) after the binary was written.',
         note='Trusted: z3, stubs (virtual os/open, recorder for intelhex.bin2hex, SystemExit observed in-process). The Intel HEX encoding is third-party and not part of the claim.',
         ref='6 C17'),
     'C18': dict(
-        text='The real dfu.cli_main() against a DfuSe device model: for each firmware length of the bound, opaque content, symbolic poll timeouts, symbolic busy schedules, symbolic initial error state and flash-size variant, every completed run leaves the modelled flash equal to the zero-padded image, erases before writing, never sends a request while the device is busy, sleeps every requested poll delay (solver query per status response) and stays inside the flash.',
+        text='The real dfu.cli_main() against a DfuSe device model: for each firmware length of the bound, opaque content (with a symbolic number of trailing zero bytes if the code asks), symbolic poll timeouts, symbolic busy schedules, symbolic initial error state and flash-size variant, every completed run leaves the modelled flash equal to the zero-padded image, erases before writing, never sends a request while the device is busy, sleeps every requested poll delay (solver query per status response) and stays inside the flash.',
         note='Trusted: the device model (DESIGN.md 4.5), z3, stubs. Bound: firmware lengths are concrete per task (the padding loop concretises them); see evidence.bounds.',
         ref='6 C18'),
     'C19': dict(
-        text='Oversize: a symbolic length above capacity (one path per variant covers all oversize lengths) reaches no device request. Error injection: a symbolic error status at a symbolically chosen erase/set-address/write operation: the run must end with a SystemExit message and must not print done!.',
+        text='Oversize: a symbolic length above capacity (one path per variant covers all oversize lengths) reaches no device request. Error injection: a symbolic error status at a symbolically chosen erase/set-address/write operation: with 0..5 busy polls before the result and a device that may or may not enter dfuERROR: the run must end with a SystemExit message, must not print done!, and must not announce success while a result is outstanding. Concrete lengths just above capacity are refused without any request.',
         note='Trusted: device model, z3, stubs. Bound: images of 1..3 pages for injection.',
         ref='6 C19'),
 })
